@@ -91,11 +91,13 @@ CHECKS = {
    technique='SAT-based bounded model checking (CBMC) of the instrumented router code: per-access lock-mode monitor; composition with C01', design='4/C11'),
 
  'C15': dict(
-   text='Data-race freedom, claimed for two of the three components: (a) rwp::Resource + guards: the sequentialised, access-instrumented real Resource.cpp runs under a happens-before monitor (vector clocks for mutex release->acquire and '
+   text='Data-race freedom of the three components: (a) rwp::Resource + guards: the sequentialised, access-instrumented real Resource.cpp runs under a happens-before monitor (vector clocks for mutex release->acquire and '
         'thread start; ONE watched byte chosen nondeterministically among all bytes of the Resource object) and CBMC decides over every schedule of 2-3 threads and every watched byte that no two conflicting accesses are unordered; '
         '(b) ConcurrentSubjectRouter: the lock-discipline check of C11 (every access to router memory happens with the Resource held in the right mode) which, with C01, orders every pair of conflicting accesses. '
-        '(c) ThreadPool/Thread: NOT covered — the sequentialised ThreadPool.cpp is outside the engine budget (DESIGN 8.3).',
-   note=TB + 'sequential consistency; accesses are those of the -O1 IR; ThreadPool part of the property not decided by this check.',
+        '(c) ThreadPool/Thread: the same happens-before monitor (plus thread join and atomics as synchronisation) on the sequentialised, access-instrumented real ThreadPool.cpp/Thread.cpp: owner programs start;stop and '
+        'start;getters;update;stop with expiring workers (timeout 0, arbitrary clock), every schedule prefix of K steps, watched byte anywhere in the pool object, the worker / runnable / thread-state objects and the tasks. '
+        'Races are confirmed on the real build with ThreadSanitizer (stress programs) before being reported.',
+   note=TB + 'sequential consistency; accesses are those of the -O1 IR; Data-race freedom claimed for 2-3 threads, two owner programs of the pool and bounded schedule prefixes (quick K=12, thorough K=22-24).',
    technique='SAT-based bounded model checking (CBMC) with a vector-clock happens-before monitor on instrumented accesses; lock-discipline monitor for the router', design='4/C15 + 8.2'),
  'C17': dict(
    text='Bounded model checking of the real File.cpp, Path.cpp, Exception.cpp and Array.h over a POSIX stdio/dirent model (rt/rt_fs.c): for every cube (write mode, length 0..3 (thorough 6), split into two write calls, write overload, '
@@ -115,12 +117,23 @@ CHECKS = {
         'naming the input\'s language and country (an uninitialised field is a nondeterministic value and fails the membership checks). Quick: lengths 5 (full) and 66 (safety, parts >= 64 bytes); thorough adds 3,6,7,9 (full) and 12,40,70 (safety).',
    note=TB + 'model std::list (capacity 8); string.h functions as plain loops; per-length claims are complete for that length, other lengths are outside.',
    technique='SAT-based bounded model checking (CBMC) of clang-lowered LocaleInfo::get with full tables; every input byte symbolic', design='4/C19'),
+'C08': dict(
+   text='The real ThreadPool.cpp/Thread.cpp/Runnable are compiled to LLVM IR, inlined and turned into resumable step functions (owner thread and worker threads have separate roots); a scheduler written in C executes K steps where the thread '
+        'chosen at each step is a solver variable. Scheduling points: every synchronisation operation, every access to the unsynchronised flag ThreadPool::m_isRunning (and Thread::m_isFinished), and the window between evaluating the wait '
+        'predicate and blocking. For owner programs start / stop / restart (always ending in stop()) CBMC decides over every schedule: no deadlock (a join or wait that can never be enabled is reported), with "complete" queries also that '
+        'K steps suffice for every schedule to terminate; after stop(): getThreadCount()==0, no task running, every submitted task destroyed exactly once; a later start() works; worker count <= maximum. '
+        'Counterexample schedules are replayed on the real g++ build with the schedule shim (real sources with a yield hook at the same racy accesses).',
+   note=TB + 'kissat as SAT back end; one worker (quick) / two workers (thorough), <= 2 tasks; non-expiring workers; sequential consistency; one static buffer per new-site and ghost-state (not pointer-check) detection of use after delete; pointer checks off for these units (bounds and division on).',
+   technique='SAT-based bounded model checking (CBMC + kissat) of the sequentialised real ThreadPool/Thread code; schedule as solver variable; deadlock detector', design='4/C08 + 8.4'),
+ 'C07': dict(
+   text='Same sequentialised encoding of the real ThreadPool.cpp/Thread.cpp as C08 with instrumented tasks (ghost counters entered/exited/destroyed per task, canary, executing thread, global order): for owner programs '
+        'start,start,wait / start,clear,start / start,stop,start,wait (always ending in stop()) CBMC decides over every schedule of K steps that a task is executed at most once, destroyed exactly once and never before or during its execution, '
+        'executed exactly once when the owner waits for it without stop/clear (else the deadlock detector fires), that no task starts after stop() returned, and that a single worker runs tasks in submission order.',
+   note=TB + 'kissat as SAT back end; quick: one worker, 2 tasks, schedule prefixes of K steps; thorough adds complete runs and two workers; non-expiring workers; sequential consistency; static new-sites; pointer checks off (ghost state instead).',
+   technique='SAT-based bounded model checking (CBMC + kissat) of the sequentialised real ThreadPool/Thread code with ghost task state; schedule as solver variable', design='4/C07 + 8.4'),
 }
 REASON_WIP = 'check not built yet'
 NA = {
- 'C07': 'ThreadPool task ownership: the harness, the racy-field scheduling points and the plan exist (harness/h_pool.cpp, checks/pool_common.py) but symbolic execution of the sequentialised real ThreadPool.cpp+Thread.cpp with ONE worker, ONE task '
-        'and a 12-step schedule does not finish in 400 s, and a 22-step run (needed for start+stop) was still in symbolic execution after 30 CPU-minutes; CBMC field-sensitive pointer assignments dominate. Not decidable with this technique family on this image within budget.',
- 'C08': 'ThreadPool::stop() termination: same encoding and same measured blow-up as C07 (see DESIGN.md 8.3); the suspected lost wake-up (stop() writes m_isRunning without the queue mutex) is therefore neither confirmed nor refuted.',
 }
 m = {"version": 1, "setup_cmd": "./vf setup",
      "hooks": {"guard": "TULZ_VERIF", "enable": "no source hooks are needed: harness translation units reach private state with '#define private public' around the tulz header; checks compile /repo's working tree directly",
